@@ -171,6 +171,7 @@ fn run_crash(cfg: &RunCfg, steps: &[Step], target: u32, k: u64, reissue: bool, b
     seam::run_isolated(cfg.seed, T0, move || {
         let dir = crate::run::fresh_dir();
         let mut w = World::new(cfg2.seed, dir.clone());
+        w.isolate_steps = true;
         for nc in &cfg2.nodes {
             let _ = w.add_node(nc.clone());
         }
@@ -264,6 +265,7 @@ pub fn post(v: &Variant, out: &RunOutput) -> (Vec<Violation>, Vec<(String, u64)>
         seam::run_isolated(cfg.seed, T0, move || {
             let dir = crate::run::fresh_dir();
             let mut w = World::new(cfg.seed, dir.clone());
+            w.isolate_steps = true;
             for nc in &cfg.nodes {
                 let _ = w.add_node(nc.clone());
             }
